@@ -83,7 +83,7 @@ fn mutate(rng: &mut Rng, spec: &AppSpec, qid: &str) -> (Value, String, Option<bo
             _ => json!(1e300),
         }
     };
-    let n_classes = 24;
+    let n_classes = 25;
     let class = rng.below(n_classes);
     let (label, must): (String, Option<bool>) = match class {
         0 => {
@@ -198,6 +198,10 @@ fn mutate(rng: &mut Rng, spec: &AppSpec, qid: &str) -> (Value, String, Option<bo
         22 => {
             q["state_features"] = any_json(rng);
             ("state-features-any-type".into(), None)
+        }
+        23 => {
+            q["query_weight_estimate"] = any_json(rng);
+            ("weight-estimate-any-type".into(), None)
         }
         _ => {
             q["vehicle_rates"] = if rng.chance(0.5) { any_json(rng) } else { json!({"distance": {"type": "factor", "factor": -3.0}}) };
@@ -495,7 +499,7 @@ pub fn worker(args: &[String]) -> i32 {
 }
 
 pub fn run(tier: Tier, seed: u64) -> MonOut {
-    let n = tier.n(160, 6_000);
+    let n = tier.n(1_600, 60_000);
     let only: Option<usize> = std::env::var("VERIF_ONLY_CASE").ok().and_then(|s| s.parse().ok());
     let (first_case, n) = match only {
         Some(c) => (c, c + 1),
@@ -642,7 +646,7 @@ pub fn run(tier: Tier, seed: u64) -> MonOut {
     let _ = std::fs::remove_dir_all(&work);
     MonOut {
         report: rep,
-        rule: "worker subprocesses (address space limited to 6 GiB, stderr discarded) build applications over plugin configurations {none, inject, grid_search, vertex_rtree, edge_rtree, load_balancer haversine|numeric|categorical and combinations}, algorithms {Dijkstra, A*, single-via, Yen}, traversal {distance, speed, energy ice|bev|phev with/without prediction cache}, outputs {summary, traversal in any format, uuid}; per application three batches: empty, one item, 2..50 items; 65 % of the items are structural mutations of a valid query from 24 classes (drop / retype / out-of-range origin and destination, empty / array / scalar / empty-axis / no-axis / nested / six-axes grid sections, origin = destination, unknown model name, zero weights, absurd k / weight_factor / starting charge / cost overrides / state_features, non-object queries of every JSON type). every query runs under a logical step budget enforced on the application's worker threads through hook events. non-trivial = a batch with at least one mutated query; distinct by (configuration, mutation list)".into(),
+        rule: "worker subprocesses (address space limited to 6 GiB, stderr discarded) build applications over plugin configurations {none, inject, grid_search, vertex_rtree, edge_rtree, load_balancer haversine|numeric|categorical and combinations}, algorithms {Dijkstra, A*, single-via, Yen}, traversal {distance, speed, energy ice|bev|phev with/without prediction cache}, outputs {summary, traversal in any format, uuid}; per application three batches: empty, one item, 2..50 items; 65 % of the items are structural mutations of a valid query from 25 classes (drop / retype / out-of-range origin and destination, empty / array / scalar / empty-axis / no-axis / nested / six-axes grid sections, origin = destination, unknown model name, zero weights, absurd k / weight_factor / starting charge / cost overrides / state_features, non-object queries of every JSON type). every query runs under a logical step budget enforced on the application's worker threads through hook events. non-trivial = a batch with at least one mutated query; distinct by (configuration, mutation list)".into(),
         assumptions: vec![
             "a batch that kills the worker (abort, SEGV, allocation failure under the cap) is a violation with the batch as witness; a worker that makes no progress for 5 minutes is killed and reported as inconclusive, never as a violation".into(),
             "'must be an error' is only asserted for mutations that are ill-formed under every reading (missing / ill-typed / out-of-range origin, zero weights, unknown vehicle, charge outside 0..100, non-object queries, and degenerate grid sections when the grid plugin is configured)".into(),
